@@ -243,6 +243,7 @@ EXPECTED_SITES = {
     "codebasin.preprocessor:IncludeNode.evaluate_for_platform": 1,
     "codebasin.file_parser:FileParser.insert_directive_node": 1,
     "codebasin.preprocessor:DirectiveParser.parse": 1,          # trailing tokens after a directive
+    "codebasin.finder:find": 1,                                 # a forced include (-include) that is not found
     "codebasin.config:load_database": 3,
     "codebasin.config:ArgumentParser.__init__": 1,
     "codebasin.config:ArgumentParser.parse_args": 1,
@@ -274,7 +275,10 @@ def extra_obligations(index, tier):
     return out
 
 
+import contracts.C08 as _C08     # noqa: E402,F401  (the per-entry block of find(): one warning per forced include that is not found)
+
 UNITS = [
+    "codebasin.finder:find@loop4",
     "codebasin.preprocessor:IncludeNode.evaluate_for_platform#literal",
     "codebasin.preprocessor:IncludeNode.evaluate_for_platform#computed",
     "codebasin.file_parser:FileParser.insert_directive_node#unrecognized",
